@@ -227,6 +227,14 @@ def do_check(prop, tier, keep=False, only=None, verbose=False):
     wd = os.path.join(HERE, '.work', '%s.%d' % (prop, os.getpid()))
     if os.path.exists(wd):
         shutil.rmtree(wd)
+    # stale work dirs of earlier (failed / killed) runs of this property whose process is gone
+    try:
+        for d in os.listdir(os.path.join(HERE, '.work')):
+            m = re.match(r'^%s\.(\d+)$' % re.escape(prop), d)
+            if m and not os.path.exists('/proc/' + m.group(1)) and not os.environ.get('VP_KEEP'):
+                shutil.rmtree(os.path.join(HERE, '.work', d), ignore_errors=True)
+    except OSError:
+        pass
     os.makedirs(wd)
     exit_code = 0
     lines = []
@@ -578,7 +586,19 @@ def main():
         sys.exit(do_selfcheck())
     if a.cmd == 'check':
         tier = a.tier if a.tier in ('quick', 'thorough') else 'quick'
-        sys.exit(do_check(a.prop, tier, a.keep, a.only, a.verbose))
+        if a.keep:
+            os.environ['VP_KEEP'] = '1'
+        try:
+            rc = do_check(a.prop, tier, a.keep, a.only, a.verbose)
+        except SystemExit:
+            raise
+        except BaseException as e:      # infrastructure failure (disk full, interrupted, bug): never a verdict
+            import traceback
+            traceback.print_exc()
+            print('INFRA: check aborted by %s: %s' % (type(e).__name__, str(e)[:300]))
+            R.kill_live()
+            sys.exit(2)
+        sys.exit(rc)
     if a.cmd == 'replay':
         sys.exit(do_replay(a.path))
     if a.cmd == 'list':
